@@ -8,7 +8,10 @@ use crate::logs::HasLogger;
 use crate::storage::FileManager;
 use crate::{AccountSync, EndpointSync};
 use acme_common::error::Error;
+#[cfg(not(feature = "breard_r_acmed_verif"))]
 use async_lock::RwLock;
+#[cfg(feature = "breard_r_acmed_verif")]
+use crate::verif_probe::sched::RwLock;
 use futures::stream::FuturesUnordered;
 use futures::StreamExt;
 use std::collections::HashMap;
@@ -155,6 +158,18 @@ impl MainEventLoop {
 		})
 	}
 
+	#[cfg(feature = "breard_r_acmed_verif")]
+	#[allow(clippy::type_complexity)]
+	pub fn verif_parts(
+		&mut self,
+	) -> (
+		&mut HashMap<String, Certificate>,
+		&HashMap<String, AccountSync>,
+		&HashMap<String, EndpointSync>,
+	) {
+		(&mut self.certificates, &self.accounts, &self.endpoints)
+	}
+
 	pub async fn run(&mut self) {
 		let mut renewals = FuturesUnordered::new();
 		for (_, crt) in self.certificates.iter_mut() {
@@ -200,6 +215,8 @@ async fn renew_certificate(
 			}
 		}
 	}
+	#[cfg(feature = "breard_r_acmed_verif")]
+	crate::verif_probe::attempt_start(certificate);
 	let (status, is_success) =
 		match request_certificate(certificate, account_s.clone(), endpoint_s.clone()).await {
 			Ok(_) => ("success".to_string(), true),
@@ -219,5 +236,7 @@ async fn renew_certificate(
 			certificate.warn(&e.message);
 		}
 	};
+	#[cfg(feature = "breard_r_acmed_verif")]
+	crate::verif_probe::attempt_end(certificate, is_success).await;
 	(certificate, account_s.clone(), endpoint_s.clone())
 }
